@@ -295,7 +295,7 @@ Definition tnext (w : world) (t : nat) (c : bool) : world := fst (fst (step w t 
 Ltac step_destruct w t :=
   unfold tnext, step;
   destruct (pc_ (thr w t)) eqn:Hpc;
-  [ destruct (prog (thr w t)) as [|[mu dl os|n|n|n delta|n|n|m|m] rest] eqn:Hprog | .. ].
+  [ destruct (prog (thr w t)) as [|[mu dl os|n|n|n delta|n|n|m|m|tgt] rest] eqn:Hprog | .. ].
 
 Lemma step_other w t c u : u <> t -> thr (tnext w t c) u = thr w u.
 Proof.
@@ -1372,6 +1372,7 @@ Proof.
     assert (S1 : same_but_thr w w1 /\ thr w1 = thr w).
     { unfold w1. destruct (muh w m); [destruct (_ =? _)%nat|]; auto using same_muh, same_refl. }
     destruct S1. apply (ginv_pure w); auto. apply pure_idle; auto.
+  - (* OpStale *) simpl. apply (ginv_pure w); auto using same_sem. apply pure_idle; auto.
   - (* PFirst *)
     pose proof (ginv_obj_ready_time w true (objat (thr w t) j) (rec_of t (thr w t) j) G) as G1.
     pose proof (thr_obj_ready_time w true (objat (thr w t) j) (rec_of t (thr w t) j)) as T1.
@@ -1719,6 +1720,8 @@ Proof.
   - destruct (cvs w n) as [|r q] eqn:E; simpl; apply eff_set_thr; [apply eff_refl|]. apply eff_take. intros r' [].
   - destruct (muh w m); simpl; [apply eff_refl|]. apply eff_set_thr. constructor; auto.
   - simpl. apply eff_set_thr. destruct (muh w m); [destruct (_ =? _)%nat|]; try apply eff_refl. constructor; auto.
+  - (* OpStale: a stale post only adds to a semaphore *)
+    simpl. apply eff_set_thr. constructor; simpl; auto. intros t _. unfold fupd. destruct (Nat.eqb_spec t tgt) as [-> | Hne]; lia.
   - pose proof (eff_obj_ready_time w true (objat (thr w u) j) (rec_of u (thr w u) j)) as Hq.
     destruct (obj_ready_time w true _ _) as [w1 nt]. simpl in *. now apply eff_set_thr.
   - simpl. apply eff_set_thr. apply eff_init_rec. reflexivity.
@@ -2328,7 +2331,7 @@ Proof.
   { intros j A B C D. apply sticky_to_stable; auto. intros i Hi. exfalso. eapply C; eauto. }
   unfold to_tr in H. destruct (pc_ (thr w u)) eqn:Hpc.
   - (* PIdle *)
-    unfold tnext, step. rewrite Hpc. destruct (prog (thr w u)) as [|[mu dl os|n|n|n delta|n|n|m|m] rest] eqn:Hprog; simpl.
+    unfold tnext, step. rewrite Hpc. destruct (prog (thr w u)) as [|[mu dl os|n|n|n delta|n|n|m|m|tgt] rest] eqn:Hprog; simpl.
     + apply tt_other. rewrite Hpc. exact I.
     + rewrite fupd_same. unfold ctl_call. destruct (length os =? 0)%nat; [now apply tt_after_first | apply tt_other; exact I].
     + destruct (note_deadline w n) as [w1 nt]. simpl. rewrite fupd_same. apply tt_other. simpl. rewrite Hpc. exact I.
@@ -2338,6 +2341,7 @@ Proof.
     + destruct (cvs w n); simpl; rewrite fupd_same; apply tt_other; simpl; rewrite ?Hpc; exact I.
     + destruct (muh w m); simpl; [|rewrite fupd_same]; apply tt_other; simpl; rewrite ?Hpc; exact I.
     + rewrite fupd_same. apply tt_other; simpl; rewrite ?Hpc; exact I.
+    + (* OpStale *) rewrite fupd_same. apply tt_other; simpl; rewrite ?Hpc; exact I.
   - (* PFirst *)
     unfold tnext, step. rewrite Hpc. destruct (obj_ready_time w true _ _) as [w1 nt]. simpl. rewrite fupd_same.
     destruct Lu as [Lj _]. unfold ctl_first. destruct (time_pos nt).
